@@ -234,7 +234,8 @@ def main(prop, argv=None):
                     for sv in res.get("violations", []):
                         if len(violations) < 400:
                             violations.append(sv)
-                    if len(job_digests) < 8 and res.get("digest") is not None:
+                    if len(job_digests) < 400 and res.get("digest") is not None \
+                            and res.get("wall", 0) < 20:
                         job_digests.append((res["job"], res["digest"]))
                     for s in res.get("samples", []):
                         agg.setdefault("_samples", [])
@@ -305,7 +306,10 @@ def main(prop, argv=None):
     # ---- determinism self-test -----------------------------------------------
     det = None
     if not args.no_selftest and job_digests and exit_code != EXIT_HARNESS:
-        sample = job_digests[:4]
+        # spread the sample over the whole batch (fixed and seeded jobs), smallest index first
+        job_digests.sort(key=lambda jd: json.dumps(jd[0], sort_keys=True))
+        step = max(1, len(job_digests) // 5)
+        sample = job_digests[::step][:5]
         ok, other = determinism_selftest(prop, [j for j, _ in sample], [d for _, d in sample],
                                          args.workers)
         det = {"jobs": len(sample), "ok": ok}
